@@ -94,6 +94,12 @@ def cases_for_entry(e, quick):
                 pl = C.build_payload(e, lambda x, c=c: c, 1, bg, maxlen=65535)
                 if pl is not None:
                     yield ("count", pl)
+    if L.special_of(e.mode, e.clsid) == "esfmeas":
+        # ESF-MEAS: with calibTtagValid set, one more data item follows the numMeas measurements
+        for c in (0, 1, 2, 3, 31):
+            pl = C.build_payload(e, lambda x, c=c: c, 1, bg, maxlen=65535)
+            if pl is not None and len(pl) > 5:
+                yield ("esfmeas-calib", pl[:4] + bytes([pl[4] | 0x08]) + pl[5:] + bytes([0x11, 0x22, 0x33, 0x0B]))
     for nm_members in (0, 1, 2, 3, 17):
         pl = C.build_payload(e, lambda x: 1, nm_members, bg, maxlen=65535)
         if pl is not None:
